@@ -98,16 +98,22 @@ package file
 
 // declSize is defined as what linkSize reports for a link; linkSize itself is not verified here.
 //@ func (*file.shardNodeFile).linkSize
-//@ trusted
+//@ assume_ensures
 //@ requires 0 <= position
+//@ at call (*data._BlockSizes).LookupByIndex#1 assert block-size-of-this-link: callee_idx == int64(position)
+//@ at call (github.com/ipld/go-ipld-prime/datamodel.Node).LookupByString#2 assert raw-leaf-size-is-the-tsize-of-this-link: callee_key == "Tsize" && callee_recv == lnk
+//@ at call (io.Seeker).Seek#1 assert fallback-measures-to-the-end: callee_offset == 0 && callee_whence == 2
 //@ ensures err == nil ==> result0 == declSize(s, position)
 //@ ensures result1 != nil ==> fresh(result1)
 //@ ensures forall it Ref :: itpos(it) == old(itpos(it)) && itlen(it) == old(itlen(it))
-//@ assigns file.shardNodeFile.metadata, file.shardNodeFile.unpackLk
+//@ ensures no-reader-no-request: result1 == nil ==> loads == old(loads)
+//@ ensures declared-sizes-need-no-reader: sizesDeclared(s) ==> result1 == nil
+//@ at return assert no-reader-no-request: result1 == nil && err == nil ==> loads == old(loads)
+//@ assigns file.shardNodeFile.metadata, file.shardNodeFile.unpackLk, loads, loadFailed
 
 //@ func (*file.shardNodeReader).makeReader
 //@ loop 0 invariant skipped-children-are-not-opened: len(readers) == 0 ==> loads == old(loads)
-//@ domain well-sized: sizesOK(s.shardNodeFile) && 0 <= s.offset && s.offset < (1 << 62)
+//@ domain well-sized: sizesOK(s.shardNodeFile) && sizesDeclared(s.shardNodeFile) && 0 <= s.offset && s.offset < (1 << 62)
 //@ loop 0 invariant pos-algebra: 0 <= itpos(lnkIter) && itpos(lnkIter) <= itlen(lnkIter) && itlen(lnkIter) == nkids(s.shardNodeFile) && at == startOf(s.shardNodeFile, itpos(lnkIter))
 //@ inst pos-algebra: f: s.shardNodeFile
 //@ inst pos-algebra: i: itpos(lnkIter) - 1
